@@ -33,6 +33,8 @@ Fixpoint nlist_eqb (a b : list N) : bool :=
     soon as a manager operation changes what is prescribed for the resource.  Whenever a resource
     is observed again while its prescribed classes (pairwise different) never changed in
     between, the objects must be the same ones. *)
+Definition obs_classes (ob : idobs) : list N := fold_right insert_sorted [] (map (fun x : N * N * N => fst (fst x)) ob).
+
 Definition lastmap := list (N * (list N * idobs)).
 Fixpoint lookup_last (res : N) (l : lastmap) : option (list N * idobs) :=
   match l with [] => None | (k, v) :: tl => if k =? res then Some v else lookup_last res tl end.
@@ -49,8 +51,14 @@ Fixpoint ok_c11 (iso : bool) (f : refmap) (last : lastmap) (ops : list c11cmd) (
       | [] => false
       | ob :: obs' =>
           let cls := sorted_classes (ref_rules f res) in
+          (* judged only when what is observed carries exactly the prescribed classes, now and at the
+             previous observation (an equal rule under another id may legitimately be held twice:
+             the rule sets hash the id but compare without it) *)
           (match lookup_last res last with
-           | Some (cls0, ob0) => if nlist_eqb cls cls0 && nodup_classes cls then same_ids ob ob0 else true
+           | Some (cls0, ob0) =>
+               if nlist_eqb cls cls0 && nodup_classes cls &&
+                  nlist_eqb (obs_classes ob) cls && nlist_eqb (obs_classes ob0) cls0
+               then same_ids ob ob0 else true
            | None => true
            end) &&
           ok_c11 iso f ((res, (cls, ob)) :: filter (fun kv : N * (list N * idobs) => negb (fst kv =? res)) last) tl obs'
